@@ -1348,10 +1348,10 @@ func emphasisFlags(source []byte, span Span) uint8 {
 // [process emphasis procedure]: https://spec.commonmark.org/0.30/#process-emphasis
 func (p *InlineParser) processEmphasis(state *inlineState, stackBottom int) {
 	currentPosition := stackBottom
-	var openersBottom [openersBottomCount]int
-	for i := range openersBottom {
-		openersBottom[i] = stackBottom
-	}
+	// openersBottom holds stack elements (identified by their nodes) rather than indices,
+	// since indices shift as delimiters are removed from the stack.
+	// A nil entry means the search is only bounded by stackBottom.
+	var openersBottom [openersBottomCount]*Inline
 closerLoop:
 	for {
 		// Move current_position forward in the delimiter stack (if needed)
@@ -1373,11 +1373,14 @@ closerLoop:
 		// for the first matching potential opener ("matching" means same delimiter).
 		openerIndex := currentPosition - 1
 		openersBottomIndex := state.stack[currentPosition].openersBottomIndex()
-		for openerIndex >= openersBottom[openersBottomIndex] &&
-			!isEmphasisDelimiterMatch(state.stack[openerIndex], state.stack[currentPosition]) {
-			openerIndex--
+		found := false
+		for ; openerIndex >= stackBottom && state.stack[openerIndex].node != openersBottom[openersBottomIndex]; openerIndex-- {
+			if isEmphasisDelimiterMatch(state.stack[openerIndex], state.stack[currentPosition]) {
+				found = true
+				break
+			}
 		}
-		if openerIndex >= openersBottom[openersBottomIndex] {
+		if found {
 			opener := state.stack[openerIndex].node
 			closer := state.stack[currentPosition].node
 			strong := opener.Span().Len() >= 2 && closer.Span().Len() >= 2
@@ -1409,7 +1412,9 @@ closerLoop:
 		} else {
 			// We know that there are no openers for this kind of closer up to and including this point,
 			// so put a lower bound on future searches.
-			openersBottom[openersBottomIndex] = currentPosition
+			if currentPosition > stackBottom {
+				openersBottom[openersBottomIndex] = state.stack[currentPosition-1].node
+			}
 
 			if state.stack[currentPosition].flags&openerFlag == 0 {
 				// Remove delimiter from the stack
@@ -1855,7 +1860,7 @@ type delimiterStackElement struct {
 	node  *Inline
 }
 
-const openersBottomCount = 9
+const openersBottomCount = 14
 
 func (elem delimiterStackElement) openersBottomIndex() int {
 	switch elem.typ {
@@ -1866,11 +1871,15 @@ func (elem delimiterStackElement) openersBottomIndex() int {
 			return 3 + elem.n%3
 		}
 	case inlineDelimiterUnderscore:
-		return 6
+		if elem.flags&openerFlag == 0 {
+			return 6 + elem.n%3
+		} else {
+			return 9 + elem.n%3
+		}
 	case inlineDelimiterLink:
-		return 7
+		return 12
 	case inlineDelimiterImage:
-		return 8
+		return 13
 	default:
 		panic("unreachable")
 	}
